@@ -54,6 +54,8 @@ type Engine struct {
 	Native      *NativeHelper
 	RefRejected map[string]string
 	Cfg         map[string]int
+	blockHooks  map[*ssa.BasicBlock]func(ex *Exec, fr *frame)
+	returnHooks map[*ssa.Function]func(ex *Exec, fr *frame)
 	Tactic      string // optional z3 tactic for check-sat-using (e.g. QF_BV pipelines)
 }
 
